@@ -21,8 +21,8 @@
 (*   RewindCursor            a batch taken but not sent when leadership is lost is taken again       *)
 (*   RestartHWMBelowLowest   after a restart hwm := (lowest index in first FIFO item) - 1;           *)
 (*                           FALSE: (first FIFO key) - 1                                             *)
-(*   DropReapplied           groups re-created by the log replay after a restart whose index is at   *)
-(*                           or below the FIFO's highest key at start are dropped at the batcher     *)
+(*   DropReapplied           groups re-created by the log replay after a restart whose index is      *)
+(*                           below the FIFO's highest key at start are dropped at the batcher        *)
 (*                           (they were stored before the restart); FALSE: only label <= hwm is      *)
 EXTENDS Naturals, Sequences, FiniteSets, TLC
 
@@ -67,7 +67,7 @@ Keys(f) == DOMAIN f
 Seek(ks, from) == MinS({k \in ks : k >= from})            \* 0 = nothing at or after `from`
 PruneF(f, d) == [k \in {x \in DOMAIN f : x > d} |-> f[k]]
 CursorAfterDel(c, d) == IF c # 0 /\ c <= d THEN d + 1 ELSE c     \* fifo.go DeleteRange
-Filtered(g, h, sh) == g[3] # 0 /\ (g[3] <= h \/ (DropReapplied /\ g[3] <= sh))   \* service.go writeToBatcher
+Filtered(g, h, sh) == g[3] # 0 /\ (g[3] <= h \/ (DropReapplied /\ g[3] < sh))   \* service.go writeToBatcher
 RestartHWM(f) == IF Keys(f) = {} THEN 0
                  ELSE LET first == MinS(Keys(f))
                           low == IF RestartHWMBelowLowest THEN MinS(Labs(f[first])) ELSE first
